@@ -3,10 +3,10 @@ CONSTANTS
   S = 3
   Abis <- AbisQuick
   Cfgs <- Cfgs3
-  Types <- TypesSweepQuick
+  Types <- TypesCov
   Pub = FALSE
   MaxK = 0
-  HiK = 7
+  HiK = 5
   Steps = TRUE
 INVARIANT IntExact
 INVARIANT ToPyExact
